@@ -93,8 +93,8 @@ Definition w_fs : fsT :=
 (* the observed part of a case filled in with what the machine does (the check compares it
    with the implementation; here it only makes the record complete) *)
 Definition w_case (a b : command) (k0 : ktab) (s : list bool) : C20.case :=
-  let m := C20.model (C20.MkCase w_cfg w_fs k0 a b s [] [] [] true true) in
-  C20.MkCase w_cfg w_fs k0 a b s (C20.o_final m) (C20.o_calls_a m) (C20.o_calls_b m) (C20.o_ok_a m) (C20.o_ok_b m).
+  let m := C20.model (C20.MkCase w_cfg w_fs k0 a b s [] [] [] true true []) in
+  C20.MkCase w_cfg w_fs k0 a b s (C20.o_final m) (C20.o_calls_a m) (C20.o_calls_b m) (C20.o_ok_a m) (C20.o_ok_b m) [].
 
 (* finding 1: both invocations mount l2 and both read the table before either mounts *)
 Definition witness1 : C20.case := w_case (CMount (bs "l2")) (CMount (bs "l2")) [] [true; false].
